@@ -3,6 +3,7 @@ import SJ.Model.Tape
 import SJ.Proofs.Rebuild
 import SJ.Proofs.WalkSafe
 import SJ.Proofs.GoRebuild
+import SJ.Proofs.GoFraming
 /-
 C19 — Deserialize never panics on corrupt or truncated bytes.
 -/
@@ -49,5 +50,14 @@ theorem C19_rebuild_follows_source (init : Array UInt64) (tags values : Bytes) (
     (hf : init.size + 8 ≤ fuel) :
     SimReb (runFun goFuns goDeserialize_rebuild fuel (rebStore init tags values)) (rebuild init tags values) :=
   rebuild_source_tie init tags values hsz fuel hf
+
+open SJ SJ.GoSem SJ.Generated SJ.GoFraming in
+/-- **C19 at the source: no input makes the header parsing panic**, except by declaring a size of 2^63 or more
+    (`make` of a declared size: `HdrRes.tooBig`). -/
+theorem C19_header_no_panic_follows_source (f : FS) (prior : Array UInt64) (fuel : Nat)
+    (hsz : f.src.size < 2^63) (hprior : prior.size < 2^63)
+    (hSc : f.sB.size < 2^63) (hMc : f.mB.size < 2^63) (hT : f.tB.size < 2^63) (hV : f.vB.size < 2^63) :
+    runFun goFuns goDeserialize_header (fuel + 1) ⟨f.env, prior⟩ = .panic ↔ headerP f.src = .tooBig :=
+  SJ.GoFraming.go_framing_no_panic f prior fuel hsz hprior hSc hMc hT hV
 
 end SJ.Properties.C19
